@@ -318,16 +318,22 @@ pub fn agent_run(ctx: &mut Ctx, hist: &History, w: &World, junos: Junos, irr_ref
     let (result, junos) = with_shared(ctx, junos, delays, |sh| {
         let conn = connector(sh.clone());
         let r = hist.rt.block_on(async move { agent::verif::run_once(conn, "irrd.sim", 43, &instance).await });
-        // tokio task ids are process-global counters: mask them
+        // tokio task ids are process-global counters: mask every "task <n>"
         r.map_err(|e| {
             let s = format!("{e:#}");
-            match s.find("task ") {
-                Some(i) if s[i + 5..].starts_with(|c: char| c.is_ascii_digit()) => {
-                    let rest: String = s[i + 5..].trim_start_matches(|c: char| c.is_ascii_digit()).to_string();
-                    format!("{}task N{}", &s[..i], rest)
+            let mut out = String::new();
+            let mut rest = s.as_str();
+            while let Some(i) = rest.find("task ") {
+                out.push_str(&rest[..i + 5]);
+                let tail = &rest[i + 5..];
+                let digits = tail.len() - tail.trim_start_matches(|c: char| c.is_ascii_digit()).len();
+                if digits > 0 {
+                    out.push('N');
                 }
-                _ => s,
+                rest = &tail[digits..];
             }
+            out.push_str(rest);
+            out
         })
     });
     uninstall();
@@ -767,11 +773,202 @@ fn history(ctx: &mut Ctx, focus: Focus) -> Verdict {
     Verdict::Pass
 }
 
+// ---------------------------------------------------------------------------------------------
+// enumerated part of C01 / C02: every (installed, evaluated) pair of a small universe, for two
+// policies at once, through the real reader -> compare -> update writer (plan facade), applied to
+// the router model
+// ---------------------------------------------------------------------------------------------
+
+const U4: [&str; 2] = ["192.0.2.0/24,24,32", "198.51.100.0/24,24,24"];
+const U6: [&str; 1] = ["2001:db8::/32,32,48"];
+/// per policy: 10 installed states (absent, or present with one of 4 x 2 subsets ... plus "present, no terms")
+/// x 10 evaluated states (not a candidate, evaluation failed, or one of 4 x 2 subsets)
+pub const PLAN_CASES_PER_POLICY: u64 = 9 * 10;
+
+fn subset(mask: u64) -> (Vec<String>, Vec<String>) {
+    let v4 = U4.iter().enumerate().filter(|(i, _)| mask & (1 << i) != 0).map(|(_, s)| (*s).to_string()).collect();
+    let v6 = if mask & 4 != 0 { vec![U6[0].to_string()] } else { Vec::new() };
+    (v4, v6)
+}
+
+fn range_to_filter(r: &str) -> (String, String) {
+    let mut it = r.split(',');
+    let p = it.next().unwrap_or("").to_string();
+    let lo = it.next().unwrap_or("0");
+    let hi = it.next().unwrap_or("0");
+    (p, format!("/{lo}-/{hi}"))
+}
+
+fn installed_policy(mask: u64) -> EphPolicy {
+    let (v4, v6) = subset(mask);
+    let mut p = EphPolicy { then: vec!["reject".into()], ..EphPolicy::default() };
+    for (fam, rs) in [("inet", v4), ("inet6", v6)] {
+        if !rs.is_empty() {
+            p.terms.push(crate::asim::EphTerm { name: fam.into(), family: Some(fam.into()), filters: rs.iter().map(|r| range_to_filter(r)).collect(), then: vec!["accept".into()] });
+        }
+    }
+    p
+}
+
+#[derive(Clone, Debug)]
+struct PlanPolicy {
+    name: String,
+    /// None = absent
+    installed: Option<u64>,
+    /// None = not a candidate, Some(None) = evaluation failed, Some(Some(mask)) = evaluated set
+    evaluated: Option<Option<u64>>,
+}
+
+fn decode_plan(i: u64, name: &str) -> PlanPolicy {
+    let inst = i % 9; // 0 = absent, 1..=8 = subset mask 0..=7
+    let eval = (i / 9) % 10; // 0 = not a candidate, 1 = failed, 2..=9 = subset mask 0..=7
+    PlanPolicy {
+        name: name.to_string(),
+        installed: if inst == 0 { None } else { Some(inst - 1) },
+        evaluated: match eval {
+            0 => None,
+            1 => Some(None),
+            m => Some(Some(m - 2)),
+        },
+    }
+}
+
+fn sets_of(mask: u64) -> (BTreeSet<Range>, BTreeSet<Range>) {
+    let (a, b) = subset(mask);
+    (a.iter().filter_map(|r| parse_range(r)).collect(), b.iter().filter_map(|r| parse_range(r)).collect())
+}
+
+fn plan_case(ctx: &mut Ctx, index: u64, focus: Focus) -> Verdict {
+    let names = ["fltr-a", "b&<c>"];
+    let pols = [decode_plan(index % PLAN_CASES_PER_POLICY, names[0]), decode_plan(index / PLAN_CASES_PER_POLICY, names[1])];
+    ev!(ctx, "plan case {:?}", pols);
+    ctx.nontrivial = true;
+    let mut db: EphDb = Vec::new();
+    for p in &pols {
+        if let Some(m) = p.installed {
+            db.push((p.name.clone(), installed_policy(m)));
+        }
+    }
+    let evaluated: Vec<agent::verif::EvaluatedInput> = pols
+        .iter()
+        .filter_map(|p| p.evaluated.map(|e| (p.name.clone(), "AS-FOO".to_string(), e.map(subset))))
+        .collect();
+    let before = db.clone();
+    let updates = match agent::verif::plan(&data_doc(&render_ephemeral(&db)), &evaluated) {
+        Ok(u) => u,
+        Err(e) => return Verdict::violation("plan-failed", format!("the agent cannot plan from a state it can produce: {e}")),
+    };
+    ctx.count_n("probe.updates_planned", updates.len() as u64);
+    for u in &updates {
+        ev!(ctx, "update {}", u.split("junos:comment").next().unwrap_or(u).chars().take(120).collect::<String>());
+        let doc = match crate::xml::parse_lenient_ns(u) {
+            Ok(d) => d,
+            Err(e) => return Verdict::violation("update-not-well-formed", format!("{e}: {u}")),
+        };
+        // C02: each update on its own, applied to the fetched state
+        let mut alone = before.clone();
+        if let Err(e) = crate::asim::apply_load(&mut alone, &doc.root) {
+            return Verdict::violation("update-rejected-by-router-model", format!("{e}: {u}"));
+        }
+        if focus == Focus::C02 {
+            let name = doc.root.child("policy-options").and_then(|p| p.child("policy-statement")).and_then(|p| p.child("name")).map(crate::xml::Elem::text).unwrap_or_default();
+            if let Some((_, p)) = alone.iter().find(|(n, _)| *n == name) {
+                let want = pols.iter().find(|q| q.name == name).and_then(|q| q.evaluated).flatten().map(sets_of);
+                match accept_sets(p) {
+                    Err(why) => return Verdict::violation("fail-open-term", format!("update for {name:?} alone: {why}")),
+                    Ok((a4, a6)) => {
+                        if let Some((w4, w6)) = want {
+                            if !a4.is_subset(&w4) || !a6.is_subset(&w6) {
+                                return Verdict::violation("accepts-outside-evaluated-set", format!("update for {name:?} alone yields {a4:?} {a6:?}, evaluated {w4:?} {w6:?}"));
+                            }
+                        }
+                    }
+                }
+                if p.then != ["reject"] {
+                    return Verdict::violation("no-final-reject", format!("update for {name:?} alone: policy ends with {:?}", p.then));
+                }
+            }
+            let mut paths = Vec::new();
+            doc.root.paths("", &mut paths);
+            if let Some(bad) = paths.iter().find(|p| !("configuration/policy-options/policy-statement".starts_with(p.as_str()) || p.starts_with("configuration/policy-options/policy-statement/"))) {
+                return Verdict::violation("write-outside-policy-statements", format!("element path {bad}"));
+            }
+        }
+        // cumulative application = what the router holds after the run
+        if let Err(e) = crate::asim::apply_load(&mut db, &doc.root) {
+            return Verdict::violation("update-rejected-by-router-model", format!("{e}: {u}"));
+        }
+    }
+    if focus == Focus::C02 {
+        return Verdict::Pass;
+    }
+    // C01: convergence, no stale policy, untouched on failure, read-back, idempotence
+    for p in &pols {
+        let now = db.iter().find(|(n, _)| *n == p.name).map(|(_, q)| q);
+        let was = before.iter().find(|(n, _)| *n == p.name).map(|(_, q)| q);
+        match p.evaluated {
+            None => {
+                if now.is_some() {
+                    return Verdict::violation("stale-policy-not-removed", format!("{:?} is installed, not a candidate, and still installed after the planned updates", p.name));
+                }
+            }
+            Some(None) => {
+                if now != was {
+                    return Verdict::violation("failed-evaluation-touched", format!("{:?}: evaluation failed but the installed state changed", p.name));
+                }
+            }
+            Some(Some(m)) => {
+                let Some(q) = now else {
+                    return Verdict::violation("managed-policy-not-installed", format!("{:?} evaluated to {:?} but is absent after the planned updates", p.name, subset(m)));
+                };
+                match accept_sets(q) {
+                    Ok(got) if got == sets_of(m) && q.then == ["reject"] => {}
+                    other => return Verdict::violation("installed-set-differs", format!("{:?}: installed {:?} (then {:?}), evaluated {:?}, previously installed {:?}", p.name, other, q.then, sets_of(m), p.installed.map(subset))),
+                }
+            }
+        }
+    }
+    let doc2 = data_doc(&render_ephemeral(&db));
+    match agent::verif::read_installed(&doc2) {
+        Ok(read) => {
+            for (n, q) in &db {
+                let want = accept_sets(q).unwrap_or_default();
+                let got = read.iter().find(|(m, _, _)| m == n).map(|(_, a, b)| (a.iter().filter_map(|r| parse_range(r)).collect::<BTreeSet<_>>(), b.iter().filter_map(|r| parse_range(r)).collect::<BTreeSet<_>>()));
+                if got.as_ref() != Some(&want) {
+                    return Verdict::violation("read-back-differs", format!("{n:?}: reader sees {got:?}, router holds {want:?}"));
+                }
+            }
+        }
+        Err(e) => return Verdict::violation("installed-state-unreadable", format!("{e}; state {}", render_ephemeral(&db))),
+    }
+    match agent::verif::plan(&doc2, &evaluated) {
+        Ok(again) => {
+            let mut db2 = db.clone();
+            for u in &again {
+                if let Ok(d) = crate::xml::parse_lenient_ns(u) {
+                    let _ = crate::asim::apply_load(&mut db2, &d.root);
+                }
+            }
+            if digest(&db2) != digest(&db) {
+                return Verdict::violation("not-idempotent", format!("a second plan with unchanged inputs changes the configuration: {:?} -> {:?}", digest(&db), digest(&db2)));
+            }
+        }
+        Err(e) => return Verdict::violation("next-run-fails", format!("planning again from the state just produced fails: {e}")),
+    }
+    Verdict::Pass
+}
+
 fn run_c01(ctx: &mut Ctx) -> Verdict {
-    history(ctx, Focus::C01)
+    match ctx.enum_index {
+        Some(i) => plan_case(ctx, i, Focus::C01),
+        None => history(ctx, Focus::C01),
+    }
 }
 fn run_c02(ctx: &mut Ctx) -> Verdict {
-    history(ctx, Focus::C02)
+    match ctx.enum_index {
+        Some(i) => plan_case(ctx, i, Focus::C02),
+        None => history(ctx, Focus::C02),
+    }
 }
 fn run_c03(ctx: &mut Ctx) -> Verdict {
     history(ctx, Focus::C03)
@@ -804,13 +1001,13 @@ const ASSUMPTIONS: &[&str] = &[
 ];
 
 macro_rules! agent_spec {
-    ($name:ident, $id:literal, $run:ident, $level:literal, $quick:expr, $thorough:expr, $rule:literal) => {
+    ($name:ident, $id:literal, $run:ident, $level:literal, $quick:expr, $thorough:expr, $enumerated:expr, $rule:literal) => {
         pub static $name: PropSpec = PropSpec {
             id: $id,
             simulator: "A-sim",
             level: $level,
             runs: |t| if t == Tier::Thorough { $thorough } else { $quick },
-            enumerated: |_| 0,
+            enumerated: |_| $enumerated,
             run: $run,
             rule: $rule,
             components: COMPONENTS,
@@ -822,13 +1019,13 @@ macro_rules! agent_spec {
     };
 }
 
-agent_spec!(C01, "C01", run_c01, "exploration", 20_000, 400_000,
-    "a history of 1-4 (thorough: 1-6) consecutive real agent runs against one FakeJunos + FakeIrrd, starting from an empty ephemeral instance; between runs the world mutates (routes appear/disappear, a family of an AS vanishes, set membership changes, policies lose the annotation / are deactivated / removed / renamed / get a new expression / are added); policy names occasionally contain XML metacharacters, quotes and non-ASCII; seeded virtual delays on every send and reply, seeded hash order, seeded IRR read segmentation. After every successful run: committed accept-set per family == reference set, final reject, no stale policy, read-back through the agent's own reader; finally one more run with unchanged inputs must succeed and change nothing. Non-trivial = at least one load-configuration was sent; distinct = distinct event-log hash");
-agent_spec!(C02, "C02", run_c02, "exploration", 20_000, 400_000,
-    "the C01 histories, one run in three with a NETCONF fault injected at a seeded request position (so that runs abort after any prefix of the update sequence); the oracle is evaluated on the model's working copy after every single load-configuration: every accepting term is restricted to inet or inet6, has at least one route-filter, all its route-filters belong to the reference set of that family, the policy ends in reject; element paths of every payload stay below configuration/policy-options/policy-statement; only the six expected operations are used and exactly the configured ephemeral instance is opened");
-agent_spec!(C03, "C03", run_c03, "exploration", 20_000, 300_000,
+agent_spec!(C01, "C01", run_c01, "exploration", 20_000, 400_000, PLAN_CASES_PER_POLICY * PLAN_CASES_PER_POLICY,
+    "enumerated (8100 cases): for two policies at once (one with XML metacharacters in its name), every pair of {absent, installed with any subset of a 2+1 range universe} x {not a candidate, evaluation failed, evaluated to any subset} through the real reader -> compare -> update writer, applied to the router model: convergence, no stale policy, untouched on failure, read-back, idempotence. seeded: a history of 1-4 (thorough: 1-6) consecutive real agent runs against one FakeJunos + FakeIrrd, starting from an empty ephemeral instance; between runs the world mutates (routes appear/disappear, a family of an AS vanishes, set membership changes, policies lose the annotation / are deactivated / removed / renamed / get a new expression / are added); policy names occasionally contain XML metacharacters, quotes and non-ASCII; seeded virtual delays on every send and reply, seeded hash order, seeded IRR read segmentation. After every successful run: committed accept-set per family == reference set, final reject, no stale policy, read-back through the agent's own reader; finally one more run with unchanged inputs must succeed and change nothing. Non-trivial = at least one load-configuration was sent; distinct = distinct event-log hash");
+agent_spec!(C02, "C02", run_c02, "exploration", 20_000, 400_000, PLAN_CASES_PER_POLICY * PLAN_CASES_PER_POLICY,
+    "enumerated: the 8100 (installed, evaluated) cases of C01, each planned update applied on its own to the fetched state. seeded: the C01 histories, one run in three with a NETCONF fault injected at a seeded request position (so that runs abort after any prefix of the update sequence); the oracle is evaluated on the model's working copy after every single load-configuration: every accepting term is restricted to inet or inet6, has at least one route-filter, all its route-filters belong to the reference set of that family, the policy ends in reject; element paths of every payload stay below configuration/policy-options/policy-statement; only the six expected operations are used and exactly the configured ephemeral instance is opened");
+agent_spec!(C03, "C03", run_c03, "fault_enumeration", 20_000, 300_000, 0,
     "histories biased towards managed policies whose data is unobtainable: unknown as-set, error response (F / E / D) to the as-set members query, IRRd refusing the connection, annotations with the bgpfu-fltr prefix that do not parse; installed state present or absent, mutations make annotations unparseable between runs. Oracle: no update or delete names such a policy and its installed state is unchanged; deletes name only policies that are not marked as managed");
-agent_spec!(C04, "C04", run_c04, "fault_enumeration", 20_000, 400_000,
+agent_spec!(C04, "C04", run_c04, "fault_enumeration", 20_000, 400_000, 0,
     "1-2 runs per history with 1-2 faults at seeded positions of the request sequence open -> get-config x2 -> load x N -> commit -> close-configuration -> close-session; fault kinds: rpc-error, error inside load-configuration-results, error followed by <ok/>, malformed reply, truncated reply, unknown message-id, another outstanding request's message-id, duplicated reply, close before the reply, close after the reply, and (non-fault) warning followed by <ok/>; reply delays let a failing load reply arrive after later loads were sent. Oracle on the per-session request log: commit only after open and every load were positively acknowledged and delivered, never after a failed step; fault => run fails; success => commit, close-configuration and close-session acknowledged");
-agent_spec!(C15, "C15", run_c15, "exploration", 20_000, 300_000,
+agent_spec!(C15, "C15", run_c15, "exploration", 20_000, 300_000, 0,
     "1-5 (thorough: 1-10) managed policies of which some are unevaluable: unknown as-set, IRR error response, PeerAS, AS-path regular expression, community match; all hash orders. Oracle: the run succeeds, every evaluable policy reaches its reference set and is committed, the unevaluable ones are untouched. The violation class names the kind of unevaluable member present");
